@@ -2,12 +2,14 @@
 import itertools, json
 
 ID = 'C06'
-GENERATORS = ['gen_xbin']
+GENERATORS = ['gen_xbin', 'gen_codepage', 'gen_formats']   # the last two: C05's file-level model, used by the whole-file theorems (extension)
 COQ_TARGETS = ['Props/C06.vo', 'Run/RunC06.vo']
 PROPS_MODULE = 'Props.C06'
 THEOREMS = ['compress_with_sound', 'compress_sound', 'compress_row_runs', 'compress_output_is_bytes',
             'compress_fails_iff_plain_fails', 'reader_refines_spec', 'impl_decoder_agrees_with', 'impl_decoder_agrees',
-            'compressed_load_positions', 'count_length_no_overflow', 'impl_decoder_agrees_refuted_before_fix']
+            'compressed_load_positions', 'count_length_no_overflow', 'impl_decoder_agrees_refuted_before_fix',
+            # extension: whole files (composition with C05's file level and C02's loader model)
+            'compressed_file_decodes_as_uncompressed_file', 'compressed_file_conforms_to_spec', 'reader_models_agree']
 SWEEP_LEMMAS = ['XBinProofs.header_sweep (256 run bytes: the reader\'s mask split of Gen/XBinConst.v against the specification\'s bit fields)',
                 'XBinProofs.hdr_sweep (4 run types x 64 counts: the writer\'s run byte against the specification\'s bit fields)',
                 'XBinProofs.enc_mask_sweep (256 attribute bytes: encode_attr stays a byte with and without the page bit)']
@@ -17,7 +19,8 @@ TRUSTED = ['Coq 8.16.1 kernel + vm_compute (finite sweeps, model evaluation); no
            'tied on every run by stage C (byte-for-byte writer output, cell-for-cell loader output)',
            'reading of doc/FileFormats/x_bin.htm into xb_spec_row (Coq) and, separately, into the python decoder of the search stage',
            'harness/src/c06.rs (header/palette/font sizes computed from the header flags to cut out the data section)']
-UNMODELLED = ['XBin header, palette and font blocks, SAUCE record (C05/C11); the search stage checks that only a SAUCE record follows the last row',
+UNMODELLED = ['XBin header, palette and font blocks are C05\'s model (Model/C05XBin.v, Model/C05XBinC.v); the whole-file theorems compose with it and stage C runs whole compressed files '
+              'through it (byte for byte, loaded buffer cell for cell); the SAUCE record is C11\'s; the search stage checks that only a SAUCE record follows the last row',
               'Buffer::get_char layer compositing and ColorOptimizer::optimize (a row is the list of cells the writer reads); the search stage runs with and without the optimiser',
               'Layer::set_char / crop_loaded_file: the readers are modelled as traces of set_char calls, equal traces give equal pictures whatever set_char does',
               'i32 overflow of Position (needs > 2^31 cells)']
@@ -343,6 +346,24 @@ def leaf_cases():
             cases.append('xbdec %d %d' % (ice, ext)); exprs.append('run_dec %d %d' % (ice, ext))
     return cases, exprs
 
+def whole_file_cases(ctx):
+    """whole XBin files with compress = true (and a few with false) through C05's harness kind and C05's Run module"""
+    from props import c05
+    rng = ctx.rng
+    n = ctx.n(16, 120)
+    pics = [c05.gen_pic(rng, 'xb', maxcells=900, maxw=160) for _ in range(n)]
+    comps = [0 if k % 8 == 7 else 1 for k in range(n)]
+    impl = ctx.impl(['c5rt xb %d 0 %s' % (c, p.args()) for p, c in zip(pics, comps)], per_case_timeout=30)
+    exprs = ['run_rt 2 %s false %s' % ('true' if c else 'false', p.coq()) for p, c in zip(pics, comps)]
+    model = c05.model_eval(ctx, c05.IMPORTS, ['digest (%s)' % e for e in exprs], [p.w * p.h + 2000 for p in pics], shards=8)
+    dis = []
+    for p, c, r, m in zip(pics, comps, impl, model):
+        a = c05.norm_impl(r, 0)
+        if a is None or m is None or c05.digest(a) != m:
+            dis.append({'case': ('c5rt xb %d 0 %s' % (c, p.args()))[:400], 'impl': str(a)[:200], 'model': str(m)[:200],
+                        'why': 'whole-file digest differs (bytes of Buffer::to_bytes or the buffer loaded from them)'})
+    return n, dis
+
 def correspondence(ctx):
     bufs = [dict(b, lossless=1, sauce=0) for b in REGRESSION] + directed_run_limit_rows()[::2]
     target_rows = ctx.n(1500, 6000)
@@ -370,12 +391,17 @@ def correspondence(ctx):
             if impl[i] and impl[i][0] == 'ok' and model[i]:
                 bad = next((j for j in range(min(len(model[i]), len(impl[i][1]))) if model[i][j] != impl[i][1][j]), None)
             dis.append({'case': cases[i], 'impl': str(impl[i])[:200], 'model': str(model[i])[:200], 'why': 'leaf sweep differs at index %r' % bad})
+    # extension: WHOLE compressed files through the composed model (C05 file level + this compressor + C02's loader model):
+    # Buffer::to_bytes("xb", compress) bytes and the buffer Buffer::from_bytes loads, against Run/RunC05.run_rt
+    wf_cases, wf_dis = whole_file_cases(ctx)
+    dis += wf_dis
     widths = {}
     for b in bufs: widths[b['w']] = widths.get(b['w'], 0) + b['h']
     errs = sum(1 for i in range(len(bufs)) if impl[i] and impl[i][0] == 'ok' and impl[i][1][0])
-    return {'cases': len(cases), 'disagreements': dis,
-            'distinct_nontrivial': len({c for c, b in zip(cases, bufs) if b['w'] * b['h'] >= 2}) + len(lc),
+    return {'cases': len(cases) + wf_cases, 'disagreements': dis,
+            'distinct_nontrivial': len({c for c, b in zip(cases, bufs) if b['w'] * b['h'] >= 2}) + len(lc) + wf_cases,
             'distribution': {'rows_by_width': {str(k): v for k, v in sorted(widths.items())}, 'rows': sum(b['h'] for b in bufs),
+                             'whole_compressed_files': wf_cases,
                              'exhaustive_rows_w<=4_over_18_symbols': exhaustive_rows, 'buffers_refused_(char>255)': errs,
                              'leaf_sweeps': 'encode_attr: 16x16 colours x bold x blink x page x 3 ice modes x 1|2 fonts; decode_char: 256 bytes x 3 ice modes x 2 font modes',
                              'model_errors': getattr(ctx, 'model_errors', [])[:2]},
@@ -454,7 +480,11 @@ LEVEL_TEXT = ('Machine-checked proof (Coq, closed under the global context) abou
               'calls (character, colours, blink, font page). The code as pinned violated this (a character+attribute run swallowed a '
               'font-page change); fixed by a one-line `fix:` commit, the old behaviour is kept as a refutation lemma and regression input. '
               'Constants and the two leaf functions encode_attr/decode_char are re-extracted from the source each run; the control '
-              'structure is tied by byte-for-byte differential runs. Header, palette, fonts and SAUCE are outside.')
+              'structure is tied by byte-for-byte differential runs. Extension: composed with the file-level model of C05 (header, flags, palette and '
+              'font blocks) and the loader model of C02, the statements are also proved for whole FILES: for every picture whose size, palette and '
+              'font blocks the format admits (any cells, any one or two font pages) the compressed file exists iff the uncompressed one does, both '
+              'load to the same buffer, and the compressed file is header + blocks + exactly one specification-conformant stream with nothing behind it; '
+              'whole compressed files are compared with Buffer::to_bytes / from_bytes on every run. The SAUCE record is outside (C11).')
 LEVEL_NOTE = ('Trusted: Coq kernel + vm_compute; the hand transcription of the compressor/readers (tied by stage C on every run, exhaustive for '
               'rows of width <= 4 over 18 symbols in the thorough tier); the python constant extractor; the reading of x_bin.htm; no axioms.')
 TECHNIQUE = ('Coq proof by induction over the row with a run-state invariant, heuristic abstracted as an oracle; independent specification '
